@@ -201,6 +201,7 @@ func runC02(c *Ctx, r *Report) {
 	defer c02r5(c, r)
 	defer c02r6(c, r)
 	defer c02r8(c, r)
+	defer c02r10(c, r)
 	defer c02r7(c, r)
 	defer c13r3(c, r) // workers of a cancelled scan must be gone before their slabs are handed out again (crash otherwise)
 	defer func() {
@@ -378,6 +379,9 @@ func runC03(c *Ctx, r *Report) {
 func runC05(c *Ctx, r *Report) {
 	l := c.L
 	defer c03r6(c, r) // a scheme is a complete configuration: the score does not depend on the scheme initialised before
+	defer c05r12(c, r)
+	defer c05r13(c, r)
+	defer c06r6(c, r) // matching does not write into the line it matches
 	r.rule("C05-R1", "B", "P1",
 		"one slab per worker goroutine; Matcher.slab accessed only by scan and the constructor; the streaming filter's slab only under its mutex",
 		"two goroutines scribble on one scratch matrix: results depend on scheduling")
